@@ -409,6 +409,43 @@ func TestVerifC07Rtmp(t *testing.T) {
 		ctl("rtmp.SetChunkSize", func() Packet { return NewSetChunkSize() }, 3),
 		ctl("rtmp.WindowAcknowledgementSize", func() Packet { return NewWindowAcknowledgementSize() }, 3),
 		ctl("rtmp.SetPeerBandwidth", func() Packet { return NewSetPeerBandwidth() }, 4),
+		// after-error reuse: the same Protocol keeps reading after ReadMessage failed (the chunk-stream
+		// cache holds whatever the failed chunk left), and DecodeMessage is called again on it
+		{name: "rtmp.read.aftererror", gen: func(r *vRng) []byte {
+			return append(vC07Damage(r, vC07RtmpAdversarial(r)), vC07RtmpStream(r)...)
+		}, run: func(b []byte) bool {
+			p := vC07RtmpProto(b)
+			errs := 0
+			for i := 0; i < 100000 && errs < 6; i++ {
+				m, err := p.ReadMessage()
+				if err != nil {
+					errs++
+					continue
+				}
+				_, _ = p.DecodeMessage(m)
+			}
+			return errs > 0
+		}},
+		{name: "rtmp.packet.reuse", gen: func(r *vRng) []byte {
+			return append([]byte{byte(r.intn(11))}, vC07Reuse(func(r *vRng) []byte { return vC07RtmpCommand(r) })(r)...)
+		}, run: func(b []byte) bool {
+			if len(b) < 1 {
+				return true
+			}
+			mk := []func() Packet{func() Packet { return NewConnectAppPacket() }, func() Packet { return NewConnectAppResPacket(1) }, func() Packet { return NewCallPacket() },
+				func() Packet { return NewCreateStreamPacket() }, func() Packet { return NewCreateStreamResPacket(2) }, func() Packet { return NewPublishPacket() },
+				func() Packet { return NewPlayPacket() }, func() Packet { return NewSetChunkSize() }, func() Packet { return NewWindowAcknowledgementSize() },
+				func() Packet { return NewSetPeerBandwidth() }, func() Packet { return NewUserControl() }}
+			pk := mk[int(b[0])%len(mk)]()
+			p1, p2 := vC07Split2(b[1:])
+			e1 := pk.UnmarshalBinary(p1)
+			_ = pk.Size()
+			_, _ = pk.MarshalBinary()
+			e2 := pk.UnmarshalBinary(p2)
+			_ = pk.Size()
+			_, e3 := pk.MarshalBinary()
+			return e1 != nil && e2 != nil && e3 != nil
+		}},
 		{name: "rtmp.UserControl", gen: func(r *vRng) []byte { return vC07RtmpPayload(r, 4) }, run: func(b []byte) bool {
 			p := NewUserControl()
 			if err := p.UnmarshalBinary(b); err != nil {
